@@ -193,6 +193,37 @@ def run(ctx):
         ctx.fail("C18.R1", "affinity:empty-list", fa.file, fa.node.lineno, fa.qual,
                  "cpu_affinity([]) no longer selects all eligible CPUs")
 
+    # lists with duplicates select the same CPUs: either the front end hands the
+    # platform a duplicate-free collection, or every platform builds its mask
+    # idempotently (OR-ing bits; adding them turns [0, 0] into CPU 1)
+    setcalls = [c for c in ast.walk(fa.node) if isinstance(c, ast.Call)
+                and isinstance(c.func, ast.Attribute) and c.func.attr == "cpu_affinity_set"]
+    dedup = bool(setcalls) and all(
+        any(isinstance(x, ast.Call) and dotted(x.func) in ("set", "frozenset", "dict.fromkeys")
+            or isinstance(x, (ast.Set, ast.SetComp))
+            for a_ in c.args for x in ast.walk(deref(fa.node, a_)))
+        for c in setcalls)
+    additive = []
+    for wf in repo.all_funcs("_pswindows"):
+        if "affinity" not in wf.qual or "set" not in wf.qual:
+            continue
+        for x in ast.walk(wf.node):
+            if isinstance(x, ast.Call) and dotted(x.func) == "sum":
+                additive.append((wf, x))
+            elif isinstance(x, ast.AugAssign) and isinstance(x.op, ast.Add) \
+                    and any(isinstance(y, (ast.Pow, ast.LShift)) for y in ast.walk(x.value)):
+                additive.append((wf, x))
+    if dedup or not additive:
+        ctx.ok("C18.R1", "affinity:duplicates", nontrivial=True,
+               sample="front end passes list(set(cpus))" if dedup else
+               "platform masks are built by OR-ing bits")
+    else:
+        wf, x = additive[0]
+        ctx.fail("C18.R1", "affinity:duplicates", wf.file, x.lineno, wf.qual,
+                 f"cpu_affinity() hands the CPU list to the platform with its duplicates and "
+                 f"`{norm_stmt(x)}` ADDS one bit per entry: [0, 0] selects CPU 1, [5, 5] an "
+                 f"invalid mask")
+
     # ------------------------------------------------------------------- R3
     ctx.rule("C18.R3", "get forms read the matching native for the object's pid and "
              "wrap it in the documented type", floor=4)
